@@ -204,6 +204,9 @@ pub fn configs(tier: Tier) -> Vec<(Tcp2Cfg, u32)> {
     // keep-alive / timeout timers, no delayed ACK, small windows (zero-window probes)
     v.push((Tcp2Cfg { mtu: 68, len: [60, 20], keep_alive_ms: Some(700), timeout_ms: Some(5000), ..Tcp2Cfg::base("c10-ip-v4-mtu68-keepalive") }, k));
     v.push((Tcp2Cfg { mtu: 576, len: [100, 0], rx: [64, 16], nagle: false, ack_delay: false, ..Tcp2Cfg::base("c10-ip-v4-mtu576-rx16") }, k));
+    // burst-limited devices (max_burst_size): the advertised window is clamped at emit time
+    v.push((Tcp2Cfg { burst: Some(2), rx: [2048, 2048], tx: [2048, 2048], mtu: 140, len: [400, 100], ..Tcp2Cfg::base("c10-ip-v4-burst2-rx2048") }, k));
+    v.push((Tcp2Cfg { burst: Some(1), eth: true, v6: true, rx: [4096, 4096], tx: [2048, 2048], mtu: 1280, len: [700, 100], ..Tcp2Cfg::base("c10-eth-v6-burst1-rx4096") }, k));
     v
 }
 
